@@ -3636,6 +3636,10 @@ class NameCheckVisitor(node_visitor.ReplacingNodeVisitor):
             return Constraint(varname, ConstraintType.predicate, positive, predicate)
         else:
             positive_operator, negative_operator, ext = COMPARATOR_TO_OPERATOR[type(op)]
+            if not is_right:
+                # `3 < x` bounds x like `x > 3`: annotate with the mirrored check.
+                mirrored = _MIRRORED_COMPARATOR.get(type(op), type(op))
+                ext = COMPARATOR_TO_OPERATOR[mirrored][2]
 
             def predicate_func(value: Value, positive: bool) -> Optional[Value]:
                 op = positive_operator if positive else negative_operator
